@@ -265,6 +265,9 @@ func (r *Run) ValEq(a, b Value) *Term {
 	case Str:
 		return r.StrEq(a, b.(Str))
 	case Pointer:
+		if bh, ok := b.(Host); ok {
+			return BoolT(a.Slot == nil && isNilHost(bh.V))
+		}
 		return BoolT(a.Slot == b.(Pointer).Slot)
 	case Struct:
 		bb := b.(Struct)
@@ -304,6 +307,9 @@ func (r *Run) ValEq(a, b Value) *Term {
 		bo, ok := b.(*Opaque)
 		return BoolT(ok && a == bo)
 	case Host:
+		if bp, ok := b.(Pointer); ok {
+			return BoolT(bp.Slot == nil && isNilHost(a.V))
+		}
 		bh, ok := b.(Host)
 		if !ok {
 			return False
